@@ -11,5 +11,22 @@ CHECKS = {
              "TypeError/OverflowError at API level, CELEvalError at runner level.",
         design_ref="DESIGN.md §4 C01",
     ),
+    "C08": dict(
+        technique="property-based testing (Hypothesis): algebraic laws + native comparison model over generated same-type pairs/triples",
+        category="exploration",
+        text="Generated same-type pairs and triples (equal copies, one-position mutations, independent) of every CEL type incl. nested "
+             "lists/maps; reflexivity, symmetry, negation, converse, trichotomy, transitivity and agreement with a native model, "
+             "through both runners, literals with different offset/unit spellings, and celtypes dunders.",
+        note="Trusts Python's comparison of plain payloads (ints, str by code point, bytes, floats, dict/list structural equality) as the model.",
+        design_ref="DESIGN.md §4 C08",
+    ),
+    "C10": dict(
+        technique="property-based testing (Hypothesis): round-trip and exact range-predicate oracles over generated values",
+        category="exploration",
+        text="Generated values of every source type (boundary-biased) pushed through each conversion chain under both runners; "
+             "identity for round trips, exact Fraction-based truncation/range predicates, Error for unparsable or out-of-range input.",
+        note="Trusts Fraction/bigint arithmetic; 'unparsable' restricted to texts no CEL implementation accepts; uint(d) for -1<d<0 not asserted.",
+        design_ref="DESIGN.md §4 C10",
+    ),
 }
 NOT_APPLICABLE = {}
